@@ -330,6 +330,18 @@ func (x *Exec) applyContract(st *State, spec *FuncSpec, fn *ssa.Function, args [
 	penv.oldHeap = oldHeap
 	penv.oldAlloc = &oldAlloc
 	bindResults(penv, res)
+	// names bound by bind(...) in the callee's emits are existential for the caller
+	hasEmits := spec.HasEmits
+	for _, b := range spec.Behaviours {
+		hasEmits = hasEmits || b.HasEmits
+	}
+	if hasEmits && !spec.Event {
+		unsupp("contract of %s declares emits but is not an abstract event: callers would not see its events", spec.Key)
+	}
+	x.bindEmitNames(st, penv, spec.Emits)
+	for _, b := range spec.Behaviours {
+		x.bindEmitNames(st, penv, b.Emits)
+	}
 	for _, e := range spec.Ensures {
 		st.assume(penv.evalBool(e.X))
 	}
@@ -793,4 +805,37 @@ func hasLoop(fn *ssa.Function) bool {
 		_ = a
 	}
 	return false
+}
+
+// bindEmitNames gives every bind(name) of an emits list a fresh symbolic value (typed by the field it binds).
+func (x *Exec) bindEmitNames(st *State, env *Env, pats []EventPat) {
+	var walk func(e Expr)
+	walk = func(e Expr) {
+		m, ok := e.(*EMsg)
+		if !ok {
+			return
+		}
+		t := env.pkg.resolveType(m.Type)
+		stt, _ := t.Underlying().(*types.Struct)
+		for _, fi := range m.Fields {
+			if bc, ok := fi.X.(*ECall); ok && bc.Fn == "bind" && len(bc.Args) == 1 && stt != nil {
+				name := bc.Args[0].(*EIdent).Name
+				if _, have := env.vars[name]; have {
+					continue
+				}
+				for i := 0; i < stt.NumFields(); i++ {
+					if stt.Field(i).Name() == fi.Name {
+						env.vars[name] = st.symbolic(stt.Field(i).Type(), "bound_"+name)
+					}
+				}
+				continue
+			}
+			walk(fi.X)
+		}
+	}
+	for _, p := range pats {
+		for _, a := range p.Args {
+			walk(a)
+		}
+	}
 }
